@@ -105,7 +105,7 @@ func compare(srv *pvpeg.Server, text string, want *ast.Grammar, fail func(kind, 
 func main() {
 	seed := flag.Int64("seed", 1, "random seed (all randomness derives from it)")
 	n := flag.Int("n", 1000, "number of grammars")
-	pigeon := flag.String("pigeon", "/verif/build/bin/pigeon-verif", "pigeon binary built with -tags verif")
+	pigeon := flag.String("pigeon", "/verif/build/bin/pigeon", "pigeon binary built with -tags verif")
 	includeKnown := flag.Bool("include-known", false, "lift the known-defect avoidance")
 	lift := flag.String("lift", "", "lift single avoidances: comma-separated list of "+strings.Join(pvpeg.AvoidNames(), ","))
 	out := flag.String("out", "/tmp/pvt.pvboot.out", "directory for failing inputs")
